@@ -37,3 +37,10 @@ TRUSTED_MEM = 'a str in memory is shorter than 2^62 bytes and the lengths of sim
 for _k, _b in (('C06', ['cmdsearch']), ('C07', ['cmdsearch', 'literals']), ('C13', ['cmdsearch', 'literals'])):
     PROPS[_k] = {'units': ['P', 'Pc'], 'spec_tags': ['tok'], 'trusted': [TRUSTED_BYTES, TRUSTED_STRSPEC, TRUSTED_TOK, TRUSTED_MEM, TRUSTED_STD], 'bounded': _b}
 PROPS['C13']['trusted'].append('the values of the byte-string literals COMMAND_LIST_BEGIN/END are assumed in Verus (contract C13.literal.*) and decided by executing them (bounded_standins: literals)')
+
+PROPS['C19'] = {'units': ['P'], 'spec_tags': [], 'bounded': ['frameops'],
+                'trusted': [TRUSTED_BYTES, TRUSTED_STD,
+                            'Frame::get and Frame::find keep ASSUMED contracts (std iterator adaptors with effectful / generic closures are outside what Verus can specify); bounded differential stand-in frameops',
+                            "assumed contracts of std's default Iterator::count on the repository's Fields iterator (wrapper vx_fields_count), Option::as_deref, Arc/String::as_ref, vstd's slice::Iter / vec::IntoIter laws",
+                            'termination of the hole-skipping recursion in Fields/IntoIter::{next,next_back} is not checked (exec_allows_no_decreases_clause): each recursive call consumes one slot of a finite vector',
+                            'a slice / Vec of non-zero-sized elements has at most isize::MAX elements (size_hint arithmetic)']}
